@@ -83,7 +83,7 @@ func c11SettleFDsFor(want int, d time.Duration) int {
 	deadline := time.Now().Add(d)
 	for {
 		n := c11CountFDs()
-		if n == want {
+		if n <= want {
 			return n
 		}
 		if time.Now().After(deadline) {
@@ -1094,7 +1094,7 @@ func c11Run(srv string, alloc, rich bool, ops []c11Op, nFull, partial int, clean
 	}
 	out.openAtEnd = liveCount
 	if isOS {
-		if n := c11SettleFDs(baseFD); n != baseFD {
+		if n := c11SettleFDs(baseFD); n > baseFD {
 			fail("fd-leak: %d descriptors more than before the session after Serve returned (%d handles were open at the end)", n-baseFD, liveCount)
 		}
 		return
@@ -1155,7 +1155,7 @@ func runC11(c *Ctx) {
 	}
 	defer os.RemoveAll(root)
 	work := filepath.Join(root, "w")
-	nSess := map[string]int{"os": 400, "req": 1000}
+	nSess := map[string]int{"os": 300, "req": 800}
 	if c.Thorough() {
 		nSess = map[string]int{"os": 2000, "req": 6000}
 	}
